@@ -7,7 +7,7 @@
     requires every run to return the minimal cost vector.
  3. the same generated problems solved under a grid of pool layouts, every returned solution judged by the VrpModel oracle
     (all invariants of C01-C03)."""
-import collections, copy, json, os, random, time
+import collections, copy, json, os, random, re, time
 from vlib import common, pgen, project
 from vlib.common import ToolError
 from checks import insertion, solve_oracle
@@ -50,7 +50,7 @@ def layouts_part(pid, tier, rnd, verdict):
     for cid, o in outcomes.items():
         c = by_id[cid]
         if o['status'] in ('panic', 'err'):
-            verdict.add('C15/Solve-%s/p%dt%d' % (o['status'], c['layout'][0], c['layout'][1]), 'run %s: %s' % (cid, o.get('error', '')[:200]), {'case': c, 'outcome': o})
+            verdict.add('C15/Solve-%s/%s' % (o['status'], re.sub(r'[^a-z0-9]+', '-', o.get('error', '').lower()).strip('-')[:40]), 'run %s: %s' % (cid, o.get('error', '')[:200]), {'case': c, 'outcome': o})
         if o['status'] != 'ok':
             continue
         try:
